@@ -30,9 +30,9 @@ CLAIMED = {
             "C09_closure is proved at the union node only (_partial); beyond it the closure clause is decided by the correspondence. F13 ([Rec, map] with a dict fitting both goes to the map branch) is left open by the statement: observation only.", "§3 C09"),
     "C10": ("Rocq proof: validate returns True exactly on the declarative conformance relation (clause by clause from the documented mapping), raises exactly where it would answer False, strict rule, accepted => elaborated => round trip under an explicit writer-domain condition; validate / validate_many / validating writers vs the model on conforming and singly-mutated data",
             "Theorems (coq/props/C10.v, 13): C10_iff, C10_sound, C10_complete, C10_raise_agrees, C10_raise_iff, C10_strict, C10_fuel_monotone, C10_gate, C10_accepted_typed, C10_absent_field_agrees, "
-            "C10_writer_accepts_partial, C10_accepted_roundtrip, C10_writer_accepts_refuted (what remains false without the side condition: foreign exception in a later branch, strict writer, float overflow). "
+            "C10_writer_accepts_iff, C10_encoded_needs, C10_accepted_roundtrip, C10_writer_accepts_refuted (witnesses for each clause of wneed: foreign exception in a later branch, strict writer, float overflow), C10_gate_* (5). "
             "Tie: 12 mutation kinds x raise_errors x strict x disable_tuple_notation, validate_many, accepted => written and read back, rejected => validating writer raises with the stream unchanged, strict writers.",
-            "C10_gate is model-level; that no byte reaches the stream is decided by the correspondence. floats_ok of the elaborated value is derived (proofs/ElabFloats.v over FloatProofs.v: Reals axioms + classic, allow-listed) from pyfloats_ok of the input, which is an evaluated hypothesis about the abstraction.", "§3 C10"),
+            "C10_gate, C10_gate_raises, C10_gate_nonconforming, C10_gate_history, C10_gate_only_validated: for the Python-level writer model (ContainerPy.pstep) a validating writer rejects exactly what validate rejects with the writer state (stream, pending block, count) unchanged, and a history with a rejected write equals the history without it; the model's tie to fastavro's Writer is the correspondence (corr:validate-vs-writer; C04-C07). C10_writer_accepts_iff: for every datum validate accepts, the writer (default, strict or strict_allow_default) elaborates it iff wneed holds (numbers convert; strict writers' field discipline; the branch search answers and the datum is writable under the branch it answers); necessity (C10_encoded_needs) holds for all data. floats_ok of the elaborated value is derived (proofs/ElabFloats.v over FloatProofs.v: Reals axioms + classic, allow-listed) from pyfloats_ok of the input, which is an evaluated hypothesis about the abstraction.", "§3 C10"),
     "C11": ("Rocq proof about a faithful model of parse_schema: full names per the spec's namespace rules, references denote table entries with that name, every rejection kind of the statement (exact error at the node and 'never accepted at any depth'), acceptance of every valid_raw schema; model vs fastavro.parse_schema on generated valid and singly-mutated schemas",
             "Theorems (coq/props/C11.v, ~39): C11_fullnames, C11_refs/C11_refs_denote, C11_rejects_* (undefined reference, duplicate name incl. top-level unions, missing name, malformed/duplicate symbol, "
             "enum default, default of wrong JSON type for primitives / dict forms / unions / references, decimal precision/scale), C11_accepts (valid_raw => accepted, no size bound). "
@@ -44,7 +44,7 @@ CLAIMED = {
             "readable on its own, canonical form, fingerprint, generate_many under a fixed random state must agree across the three forms (the statement itself), and with the model.",
             "PARTIAL: C12_piecewise in general and C12_ops_respect_equiv (a statement about the codec model's lookup-based functions) are decided by the correspondence only.", "§3 C12"),
     "C13": ("Rocq proof: canonical form of the parsed schema = the specification's transformation applied to the raw JSON (C13_spec), invariance under the inductive closure of cosmetic edits, JSON-level fixed point; model and independent pcf vs to_parsing_canonical_form incl. Apache vectors",
-            "Theorems (coq/props/C13.v): C13_spec (all simple_raw schemas incl. top-level unions), C13_cosmetic (+ instances), C13_fixed_point_json, C13_fixed_point_partial, 11 Apache vectors by vm_compute. "
+            "Theorems (coq/props/C13.v): C13_spec (all simple_raw schemas incl. top-level unions), C13_cosmetic (+ instances), C13_fixed_point_json, C13_fixed_point (unconditional in the classes simple_raw + ns_closed; outside ns_closed it is false: C13_fixed_point_refuted / K2), C13_canonical_json_simple, 11 Apache vectors by vm_compute. "
             "Tie: canon.parse (model) = pcf (model) = implementation on generated schemas and cosmetic rewrites; fixed point through json.loads.",
             "Known finding K2 (nested null-namespace type: the spec's canonical form is not a fixed point) is reported as KNOWN-FINDING. C13_same_encoding is decided by the correspondence of C12/C01, not proved.", "§3 C13"),
     "C14": ("Rocq proof: table-driven CRC-64-AVRO loop = bit-serial spec for all byte strings; correspondence by vm_compute vs fastavro.schema.fingerprint",
@@ -93,16 +93,21 @@ CLAIMED = {
             "histories of length <= 5 over a 7-op alphabet) incl. donor blocks of every codec and reopen with arbitrary schema/codec/metadata/marker/interval arguments: status "
             "and stream bytes after every op, records read back after flush.",
             "reopen is modelled as flush + new Writer whose marker/codec/schema come from the existing header (what _is_appendable + header re-read do on a seekable stream).", "§3 C07"),
-    "C15": ("Rocq proof: json_enc is the specification's JSON encoding (one equation per type, labels = full names also through references, bytes as Latin-1), json_dec(json_enc a) = a for every typed value, JSON and binary decodings agree, absent keys take defaults; json_writer/json_reader vs the model and an independent Python JSON encoder",
-            "Theorems (coq/props/C15.v): C15_spec (+_loops, _labels, _bytes), C15_roundtrip, C15_binary_agree, C15_defaults. Tie: json_writer text (json.loads, by value) vs json_enc of the "
-            "elaborated records, json_reader values, JSON vs binary decoding, defaults for deleted keys, both write_union_type settings; the statement itself evaluated with an independent encoder.",
+    "C15": ("Rocq proof: json_enc is the specification's JSON encoding (one equation per type, labels = full names also through references, bytes as Latin-1), json_dec(json_enc a) = a for every typed value, JSON and binary decodings agree at wire-value AND Python-data level, absent keys take defaults that equal the binary writer's elaboration, the reader as a generator is prefix-closed; json_writer/json_reader vs the model and an independent Python JSON encoder",
+            "Theorems (coq/props/C15.v, 16, all closed): C15_spec (+_loops, _labels, _bytes), C15_roundtrip, C15_binary_agree, C15_defaults, C15_dflt_elab, C15_defaults_binary, C15_first_branch_chosen (the JSON reading of a default = Write.elab of it under the computable side condition dflt_bin), "
+            "C15_json_binary (Python-data level: under the computable side condition c15_side, json_read(json_write v) and read(write v) yield the same value for all reader options), C15_stream_roundtrip, C15_stream_prefix, C15_members_once, C15_fuel_mono, C15_injective. "
+            "Tie: json_writer text (json.loads, by value) vs json_enc of the elaborated records, json_reader values, JSON vs binary decoding, defaults for deleted keys (dflt vs elab on every one), both write_union_type settings, foreign texts (raw non-ASCII incl. U+0085/2028/2029; permuted/extra record members), "
+            "an undecodable document among the spec documents, repeated reads with one parsed schema; the statement itself evaluated with an independent encoder.",
             "Known findings F11a-d (recursive types / field-less records in the grammar), K4 (map value ending in a nested record), K5 (numbers not converted to the schema type), K6 (record default containing a union) "
-            "are reported as KNOWN-FINDING; ~83% of generated cases lie outside every known-defect class. d2s(s2d x) = x on float leaves is a per-leaf evaluated hypothesis; the push-down automaton is not modelled step by step.", "§3 C15"),
-    "C16": ("Rocq proof over Z of every logical-type conversion on its whole domain (dates, times, timestamps, uuid, decimal two's complement); correspondence + stdlib-oracle sweeps",
-            "Theorems (coq/props/C16.v, 22): date/time/timestamp representations and round trips for every ordinal, every time of day, every instant; two's-complement library; "
-            "decimal bytes/fixed exactness and never-altered theorems (for the repaired prepare_fixed_decimal; refuted witnesses for the old code kept as documentation). "
-            "Tie: prepare_*/read_* and schemaless writer/reader vs the model on boundary grids; the statement itself evaluated on every case; SF_time source facts.",
-            "datetime/decimal/uuid are the stdlib's and enter through a syntactic abstraction validated by sweeps (thorough: all dates, all ms of day).", "§3 C16"),
+            "are reported as KNOWN-FINDING; ~83% of generated cases lie outside every known-defect class. dflt_bin excludes bytes/fixed defaults (O1) and unions whose branch search does not stop at the first branch; c15_side is evaluated in Coq on every generated record; the push-down automaton is not modelled step by step.", "§3 C15"),
+    "C16": ("Rocq proof over Z of every logical-type conversion on its whole domain, of its exact inverse, of its independence of the process time zone and of its application at every schema position; correspondence + stdlib-oracle sweeps",
+            "Theorems (coq/props/C16.v, 30): date / time-millis / time-micros / (local-)timestamp-millis/micros / uuid representations and round trips for every ordinal, every time of day, every instant (any sign, any offset); two's-complement library; "
+            "C16_decimal_bytes, C16_decimal_fixed, C16_decimal_never_altered at full strength for the converters as they are in /repo; C16_exact_inverse: read(prepare x) = normal form of x, Err exactly where writer or reader raises; "
+            "C16_tz_*: an aware datum is stored as a function of its UTC instant only, a local-timestamp as a function of the wall clock only, in every process time zone (naive data under timestamp-* is the only zone-dependent case); "
+            "C16_positions(_fuse/_equations/_tz): the converters commute with array / map / union / record construction and by-name references. C16_decimal_fixed_refuted_old / _negzero_refuted_old: witnesses against the converter before eff0ba2 (model/LogicalOld.v). "
+            "Tie: prepare_*/read_* and schemaless writer/reader vs the model on boundary grids; other process time zones (TZ + tzset) for local and aware data incl. zero offsets and zoneinfo zones; every logical type in every container position, "
+            "schemaless and container readers, with and without reader schema, also against the model's read_tree(write_tree v); the statement itself evaluated on every case; SF_time source facts.",
+            "datetime/decimal/uuid are the stdlib's and enter through a syntactic abstraction validated by sweeps (thorough: all dates, all ms of day); the process time zone is an explicit argument (mk) of the model standing for time.mktime.", "§3 C16"),
     "C17": ("Rocq proof: results of the API step function are independent of any call history (written-before-read invariant), frame theorem; fresh-interpreter vs history differential run + globals snapshots + argument deep-compare; regenerated inventory of mutable state",
             "Theorems (coq/props/C17.v): history irrelevance for every finite history and call, frame (only the decimal context cells may change; nothing for the repaired code). "
             "Tie: SF_inventory (every module-level mutable object, mutable default and shared write site regenerated from source), random call histories executed in one "
@@ -133,6 +138,12 @@ def main():
     checks = []
     for pid in sorted(CLAIMED):
         tech, text, note, ref = CLAIMED[pid]
+        # the authoritative list of theorems is the props file itself (the hand-written summary above may lag behind)
+        import re as _re
+        _src = open(os.path.join(VERIF, "coq", "props", pid + ".v")).read()
+        _src = _re.sub(r"\(\*.*?\*\)", "", _src, flags=_re.S)
+        _names = _re.findall(r"^(?:Theorem|Lemma|Corollary)\s+(\S+)", _src, _re.M)
+        text = text + " [theorems currently in coq/props/%s.v (%d): %s]" % (pid, len(_names), ", ".join(_names))
         checks.append(dict(
             property_id=pid,
             quick_cmd=f"./check {pid} --tier quick",
